@@ -242,6 +242,7 @@ def _work(item):
             if kind in ("draw", "both"):
                 check_drawing(H, out, stats, _TIER)
                 F.detour(H)
+                F.morph(H)
                 k = len(out)
                 check_drawing(H, out, stats, "quick")
                 out[k:] = [(m, "[same object after remove+re-add of its first node and edge] " + msg) for m, msg in out[k:]]
@@ -267,6 +268,10 @@ def family(tier):
         items.append(("both", F.relabel(s, node_map={n: "v%d" % (9 - n) for n in s["nodes"]}, edge_ids=["e%d" % (m - i) for i in range(m)],
                                         reverse_nodes=True)))
         items.append(("both", F.relabel(s, node_map={1: 7, 2: 3, 3: 9, 4: 1}, edge_ids=[10 * (m - i) for i in range(m)])))
+    # label types other than int / str
+    for s in (reps[4], reps[6], reps[11], reps[13], reps[14]):
+        for _, nm in F.exotic_label_maps(s["nodes"]):
+            items.append(("both", F.relabel(s, node_map=nm)))
     # layouts are cheap: the whole family
     for s in (base[::4] if q else base):
         items.append(("layout", s))
